@@ -6,60 +6,142 @@ import (
 	"math/big"
 
 	"github.com/zclconf/go-cty/cty"
+	"golang.org/x/text/unicode/norm"
 
 	"verif/harness/core"
 	"verif/harness/gen"
 	"verif/harness/mon"
 )
 
+// applyVerdict is what the model says about one (root, path) pair.
+type applyVerdict struct {
+	val       cty.Value      // the addressed member (own marks only), if ok
+	need      cty.ValueMarks // marks of the values passed through
+	ok        bool           // every step names an existing member
+	undecided string         // "" or the reason why the property says nothing
+	why       string
+	at        int    // index of the step that was refused or undecided
+	into      string // what that step was applied to: list, tuple, map, object, set, primitive, null, unknown
+}
+
 // modelApply decides, from the documentation alone, whether every step of p
-// names an existing member of the wholly known, unmarked root, and which
-// member that is. undecided is true when a step indexes a set (the property
-// excepts members of sets: paths cannot address them).
-func modelApply(root cty.Value, p cty.Path) (val cty.Value, ok bool, undecided bool, why string) {
+// names an existing member of root, and which member that is. Marks on the
+// values passed through are collected in need (the result must carry them).
+// undecided is set when the question is outside what the property states:
+// a step indexes a set (the property excepts members of sets: paths cannot
+// address them), a step enters an unknown value (its members do not exist
+// yet), or a key is itself unknown or marked.
+func modelApply(root cty.Value, p cty.Path) applyVerdict {
 	cur := root
+	res := applyVerdict{need: cty.ValueMarks{}, at: -1}
+	refuse := func(i int, into, why string) applyVerdict {
+		res.at, res.into, res.why = i, into, fmt.Sprintf("step %d: %s", i, why)
+		return res
+	}
 	for i, raw := range p {
-		if cur.IsNull() {
-			return cty.NilVal, false, false, fmt.Sprintf("step %d enters a null value", i)
+		u, own := cur.Unmark()
+		for k := range own {
+			res.need[k] = struct{}{}
 		}
-		ty := cur.Type()
+		if !u.IsKnown() {
+			res.undecided = "enters-unknown"
+			return refuse(i, "unknown", "enters an unknown value")
+		}
+		if u.IsNull() {
+			return refuse(i, "null", "enters a null value")
+		}
+		ty := u.Type()
+		kind := kindOf(ty)
 		switch st := raw.(type) {
 		case cty.GetAttrStep:
 			if !ty.IsObjectType() {
-				return cty.NilVal, false, false, fmt.Sprintf("step %d: attribute step on %s", i, kindOf(ty))
+				return refuse(i, kind, "attribute step on "+kind)
 			}
-			if _, has := ty.AttributeTypes()[st.Name]; !has {
-				return cty.NilVal, false, false, fmt.Sprintf("step %d: no attribute %q", i, st.Name)
+			// attribute names are normalised to NFC by the type constructors and accessors (cty/object_type.go), as string keys are
+			name := norm.NFC.String(st.Name)
+			if _, has := ty.AttributeTypes()[name]; !has {
+				return refuse(i, kind, fmt.Sprintf("no attribute %q", st.Name))
 			}
-			cur = cur.GetAttr(st.Name)
+			cur = u.GetAttr(name)
 		case cty.IndexStep:
+			if st.Key != cty.NilVal && (st.Key.IsMarked() || !st.Key.IsKnown()) {
+				res.undecided = "unknown-or-marked-key"
+				return refuse(i, kind, "unknown or marked key")
+			}
 			switch {
 			case ty.IsSetType():
-				return cty.NilVal, false, true, fmt.Sprintf("step %d indexes a set", i)
+				res.undecided = "set-step"
+				return refuse(i, kind, "indexes a set")
 			case ty.IsListType() || ty.IsTupleType():
 				ix, isIx := wholeIndex(st.Key)
-				if !isIx || ix >= cur.LengthInt() {
-					return cty.NilVal, false, false, fmt.Sprintf("step %d: key %#v is not a position of a %s of length %d", i, st.Key, kindOf(ty), cur.LengthInt())
+				if !isIx || ix >= u.LengthInt() {
+					return refuse(i, kind, fmt.Sprintf("key %#v is not a position of a %s of length %d", st.Key, kind, u.LengthInt()))
 				}
-				cur = cur.AsValueSlice()[ix]
+				cur = u.AsValueSlice()[ix]
 			case ty.IsMapType():
 				ks, isStr := stringKey(st.Key)
 				var ev cty.Value
-				if isStr && cur.LengthInt() > 0 {
-					ev, isStr = cur.AsValueMap()[ks]
+				if isStr && u.LengthInt() > 0 {
+					ev, isStr = u.AsValueMap()[ks]
 				} else {
 					isStr = false
 				}
 				if !isStr {
-					return cty.NilVal, false, false, fmt.Sprintf("step %d: key %#v is not a key of the map", i, st.Key)
+					return refuse(i, kind, fmt.Sprintf("key %#v is not a key of the map", st.Key))
 				}
 				cur = ev
 			default:
-				return cty.NilVal, false, false, fmt.Sprintf("step %d: index step on %s", i, kindOf(ty))
+				return refuse(i, kind, "index step on "+kind)
 			}
 		}
 	}
-	return cur, true, false, ""
+	res.val, res.ok = cur, true
+	return res
+}
+
+// keyClass names the kind of key of a step (for violation classes).
+func keyClass(st cty.PathStep) string {
+	is, isIndex := st.(cty.IndexStep)
+	if !isIndex {
+		return "attr"
+	}
+	k := is.Key
+	switch {
+	case k == cty.NilVal:
+		return "nil-key"
+	case k.IsMarked():
+		return "marked-key"
+	case !k.IsKnown():
+		return "unknown-key"
+	case k.IsNull():
+		return "null-" + k.Type().FriendlyName() + "-key"
+	case k.Type() == cty.String:
+		return "string-key"
+	case k.Type() == cty.Number:
+		bf := k.AsBigFloat()
+		switch {
+		case bf.IsInf():
+			return "infinite-key"
+		case !bf.IsInt():
+			return "fractional-key"
+		case bf.Sign() < 0:
+			return "negative-key"
+		}
+		if _, acc := bf.Int64(); acc != big.Exact {
+			return "huge-key"
+		}
+		return "index-key"
+	}
+	return kindOf(k.Type()) + "-key"
+}
+
+// applyClass is the narrow input class of a Path.Apply case: the kind of key of
+// the deciding step and what it was applied to.
+func applyClass(p cty.Path, mv applyVerdict) string {
+	if mv.ok || mv.at < 0 || mv.at >= len(p) {
+		return "resolves"
+	}
+	return keyClass(p[mv.at]) + " into " + mv.into
 }
 
 func bigNum(s string) cty.Value {
@@ -136,6 +218,7 @@ func editPath(r *core.Rand, root cty.Value, m *member) (cty.Path, string) {
 	}
 	i := r.Intn(len(p))
 	par, _ := descend(root, m.steps[:i])
+	par, _ = par.Unmark()
 	st := m.steps[i]
 	switch kind {
 	case 4:
@@ -191,35 +274,55 @@ func editPath(r *core.Rand, root cty.Value, m *member) (cty.Path, string) {
 	return p, ok.name
 }
 
-func applyRoot(r *core.Rand) cty.Value {
+// applyRoot draws the root of a Path.Apply case. plain roots are wholly known
+// and unmarked (every path is decidable); rich roots carry unknown and marked
+// members at every depth.
+func applyRoot(r *core.Rand) (cty.Value, string) {
 	depth := 2 + r.Intn(3)
 	ty := gen.Type(r, depth, gen.TypeOpts{TwinKeys: r.Chance(1, 4), NoSet: r.Chance(1, 2)}).Cty()
-	return gen.Value(r, ty, gen.ValueOpts{NullPct: 8, MaxLen: 3, SmallNums: r.Bool(), TwinKeys: r.Chance(1, 4), NoTopNull: true})
+	if r.Chance(3, 5) {
+		return gen.Value(r, ty, gen.ValueOpts{NullPct: 8, MaxLen: 3, SmallNums: r.Bool(), TwinKeys: r.Chance(1, 4), NoTopNull: true}), "plain"
+	}
+	v := gen.Value(r, ty, gen.ValueOpts{NullPct: 6, UnknownPct: 8, Refined: r.Bool(), MaxLen: 3, SmallNums: r.Bool(), TwinKeys: r.Chance(1, 4), NoTopNull: true, NoTopUnk: true})
+	return gen.MarkSome(r, v, 30, 15), "rich"
 }
 
-// checkApply: for a wholly known unmarked root, Path.Apply succeeds iff the
-// model resolves every step, and then returns the member the model found.
-func checkApply(c *core.Ctx, idx int64, root cty.Value, p cty.Path, edit string) {
+// checkApply: Path.Apply succeeds iff the model resolves every step, and then
+// returns the member the model found (carrying the marks of the values passed
+// through). Nothing is demanded where the model is undecided.
+func checkApply(c *core.Ctx, idx int64, root cty.Value, p cty.Path, edit, rootClass string) {
 	desc := func() string { return fmt.Sprintf("Path.Apply path=%#v root=%#v edit=%s", p, root, edit) }
 	c.Begin(idx, desc)
-	want, ok, undecided, why := modelApply(root, p)
+	mv := modelApply(root, p)
+	want, need, ok, undecided, why := mv.val, mv.need, mv.ok, mv.undecided, mv.why
 	var got cty.Value
 	var err error
 	o := core.Guard(func() { got, err = p.Apply(root) })
 	c.Eval(1)
 	c.Count("op:Path.Apply(iff)")
-	c.Count("apply-edit:" + edit)
-	c.Distinct(desc(), len(p) > 0)
-	cls := edit
+	if rootClass == "corpus" {
+		c.Count("apply-edit:(corpus entry)")
+	} else {
+		c.Count("apply-edit:" + edit)
+	}
+	c.Count("apply-root:" + rootClass)
+	c.Distinct(fmt.Sprintf("apply %#v | %s", p, stableText(root, enumerate(root))), len(p) > 0 && undecided == "")
+	cls := applyClass(p, mv)
+	c.Count("apply-class:" + cls)
+	if undecided == "unknown-or-marked-key" {
+		// not demanded at all (DESIGN: behaviour of steps whose key is unknown or marked)
+		c.Count("apply:undecided-" + undecided)
+		return
+	}
 	if o.Panicked {
 		c.Violate("Path.Apply", "panic: "+core.PanicClass(o.PanicMsg), cls, desc(), fmt.Sprintf("model: resolves=%v %s\n%s\n%s", ok, why, o.PanicMsg, o.Stack))
 		return
 	}
-	if undecided {
+	if undecided != "" {
 		if err != nil {
-			c.Count("apply:set-step-refused")
+			c.Count("apply:undecided-" + undecided + "-refused")
 		} else {
-			c.Count("apply:set-step-accepted")
+			c.Count("apply:undecided-" + undecided + "-accepted")
 		}
 		return
 	}
@@ -230,8 +333,25 @@ func checkApply(c *core.Ctx, idx int64, root cty.Value, p cty.Path, edit string)
 		c.Violate("Path.Apply", "succeeds although a step names no member", cls, desc(), fmt.Sprintf("returned %#v; model: %s", got, why))
 	case ok:
 		c.Count("apply:model-resolves")
-		if got.IsMarked() || !mon.ModelEqual(got, want) {
+		passive(c, "Path.Apply", got, desc())
+		_, gm := got.Unmark()
+		_, own := want.Unmark()
+		needAll := unionMarks(need, own)
+		switch {
+		case !mon.ModelEqual(got, want):
 			c.Violate("Path.Apply", "returns a value other than the addressed member", cls, desc(), fmt.Sprintf("returned %#v, member is %#v", got, want))
+		case !mon.MarksSubset(needAll, gm):
+			c.Violate("Path.Apply", "result lacks marks of the member or of its ancestors", cls, desc(),
+				fmt.Sprintf("returned %#v carrying %s; member and the values passed through carry %s", got, marksText(gm), marksText(needAll)))
+		case !mon.MarksSubset(gm, mon.DeepMarks(root)):
+			c.Violate("Path.Apply", "result carries a mark found nowhere in the root", cls, desc(), fmt.Sprintf("returned %#v", got))
+		default:
+			if d := marksBelowDiff(got, want); d != "" {
+				c.Violate("Path.Apply", "marks inside the applied result differ from the addressed member", cls, desc(), d)
+			}
+			if len(needAll) > 0 {
+				c.Count("apply:result-carries-path-marks")
+			}
 		}
 	default:
 		c.Count("apply:model-refuses")
@@ -242,16 +362,16 @@ func checkApply(c *core.Ctx, idx int64, root cty.Value, p cty.Path, edit string)
 }
 
 func runApplyCase(c *core.Ctx, idx int64, r *core.Rand) {
-	root := applyRoot(r)
+	root, rootClass := applyRoot(r)
 	model := enumerate(root)
 	m := &model[r.Intn(len(model))]
 	// prefer deep members
-	for t := 0; t < 2 && len(m.steps) < 2; t++ {
+	for t := 0; t < 4 && len(m.steps) < 2; t++ {
 		m2 := &model[r.Intn(len(model))]
 		if len(m2.steps) > len(m.steps) {
 			m = m2
 		}
 	}
 	p, edit := editPath(r, root, m)
-	checkApply(c, idx, root, p, edit)
+	checkApply(c, idx, root, p, edit, rootClass)
 }
